@@ -105,6 +105,9 @@ def run(ctx, col, tier):
              floor=8)
     col.rule("R-WRITESET", "geometric / smoothing / radius operations store only to the columns "
              "they are about (x,y,z / r); ids, parents and types cannot change", floor=5)
+    col.rule("R-ORDER", "no operation depends on the node numbering beyond the root being first: no "
+             "loop over rows in storage order reads, at the row's parent, an array it fills in that "
+             "loop; zero expected, positive examples kept", floor=1)
     col.rule("R-COMPOSE", "a pipeline only rebinds its value to the result of the next component",
              floor=1)
     col.assumptions += [
@@ -172,9 +175,15 @@ def run(ctx, col, tier):
     col.analysed["own_store_sites"] = total_stores
     col.analysed["operations"] = [o[0] for o in ops]
 
-    mustpass(ctx, col)
-    writeset(ctx, col)
-    compose(ctx, col)
+    from ..rules import orderdep
+    col.guard(orderdep.check, ctx, col, "R-ORDER", (
+        "swcgeom.core.tree_utils", "swcgeom.core.tree_utils_impl", "swcgeom.core.swc_utils.subtree",
+        "swcgeom.core.swc_utils.normalizer", "swcgeom.core.swc_utils.base", "swcgeom.transforms.tree",
+        "swcgeom.transforms.geometry", "swcgeom.transforms.branch_tree", "swcgeom.transforms.branch",
+        "swcgeom.core.swc", "swcgeom.core.tree", "swcgeom.core.branch_tree"), "tree-to-tree operations")
+    col.guard(mustpass, ctx, col)
+    col.guard(writeset, ctx, col)
+    col.guard(compose, ctx, col)
 
 
 # ------------------------------------------------------------------ R-MUSTPASS
